@@ -262,6 +262,8 @@ structure Val where
   selfToken : Nat
   selfStake : Nat
   misc : Nat          -- CommissionRate (stands for the fields without special treatment)
+  ext : Option Nat := none   -- `Ext`: none = version 0 without data; some n = version 1, Data = compact bytes of
+                             -- LastActive n (`UpdateLastActive`).  A VALUE: copies of a record do not share it.
   delegs : List Deleg := []
   deleted : Bool := false
 deriving DecidableEq, Repr
